@@ -103,8 +103,17 @@ def cases(ctx):
         pub = PrivateKey(secret_exponent=d).get_public_key().to_bytes()
         net = rng.choice(NETS)
         for c in rng.choice([(1, 0), (0, 1), (1, 0, 1)]):
-            yield Case(f'pub_addr {np("p2pkh", net)} {hx(pub[:32])} {hx(pub[32:])} {c}', 'ms', nontrivial=True, tag='pubaddr',
+            yield Case(f'pub_addr {np("p2pkh", net)} {hx(pub[:32])} {hx(pub[32:])} {c}', 'gms', nontrivial=True, tag='pubaddr',
                        spec=lambda ans, pub=pub, c=c, net=net: (f's:pub_addr_spec {np("p2pkh", net)} {hx(pub[:32])} {hx(pub[32:])} {c}', ans))
+    # the constructor called with hash160=<string>: what the translated code stores against what the object stores — valid hashes and the
+    # strings around them (case, length 39/41, non-hex, and the 40-character strings int(., 16) accepts: 0x prefix, sign, underscores, padding)
+    for _ in range(ctx.n(40, 1500)):
+        h = G.rbytes(rng, 20).hex()
+        ws = rng.choice([' ', '\t', '\n', '\x0b', '\x1c'])
+        for v in (h, h.upper(), h[:39], h + '0', 'g' + h[1:], '0x' + h[2:], '0X' + h[2:], '+' + h[1:], '-' + h[1:], h[:7] + '_' + h[8:],
+                  '_' + h[1:], h[:39] + '_', h[:7] + '__' + h[9:], ws + h[1:], h[:39] + ws, h[:20] + ws + h[21:], '', '0' * 40, 'é' + h[1:]):
+            ctx.count('gen-hash160-init')
+            yield Case(f'h160_init {np("p2pkh", "mainnet")} {sh(v)}', 'g', nontrivial=True, tag='gen-hash160-init', domain=False)
 
 
 PUBS = {}
@@ -124,6 +133,8 @@ def impl(op, a, ctx):
     if op == 'b58_accept':
         s = F.bytes().decode()
         return 'ok ' + cls(address=s).to_hash160()
+    if op == 'h160_init':
+        return 'ok ' + sh(cls(hash160=F.bytes().decode()).to_hash160())
     if op == 'pub_addr':
         x = F.bytes(); y = F.bytes(); c = F.bool()
         pub = PUBS.setdefault((x, y), PublicKey('04' + x.hex() + y.hex()))       # one object per key for the whole run
